@@ -109,11 +109,14 @@ class C03(core.Prop):
             r = pl.render_case(shape['case'], label_len=shape['ll'], distinct_labels=False, kinds='$<>',
                                indep_labels=bool(shape.get('entry')) and not shape['legacy'] and shape['ll'] > 0)
             written = {}
+            arom_written = {}
+            spec = gm.parse_smiles(shape['case']['smiles'])
             for bi, amap in enumerate(r.atom_maps):
                 for ti, a in enumerate(amap):
                     ds = r.desc_on.get(a, [])
                     written["%d:%d" % (bi, ti)] = [cat(k, lab, str(int(o)) if o != 1.5 else '1') for (k, lab, o) in ds]
-            return {'text': r.text, 'written': written}
+                    arom_written["%d:%d" % (bi, ti)] = bool(spec.atoms[a].get('aromatic'))
+            return {'text': r.text, 'written': written, 'arom_written': arom_written}
         desc = {}
         nid = 0
         for c in range(shape['nc']):
@@ -261,15 +264,19 @@ class C03(core.Prop):
             c1 = compat_spec(x, y, legacy)
             cl.append(('pair_compatible', c1))
             ok_carry = []
+            arom_in = []
             for atom, d, other in ((a, x, y), (b, y, x)):
                 mp = nodes[atom].get('mapping')
                 key = "%d:%d" % (border[nodes[atom]['fragid'][0]], mp[0][1])
+                arom_in.append(inp.get('arom_written', {}).get(key, False))
                 w = inp['written'].get(key, [])
                 # the stored pair is ordered by the coarse edge, not by (a, b): accept either assignment
                 ok_carry.append(bor(*[d == z for z in w], *[other == z for z in w]))
                 used.setdefault(key, []).append((d, other))
             cl.append(('atoms_carried_descriptors', band(*ok_carry)))
-            arom = nodes[a].get('aromatic') and nodes[b].get('aromatic')
+            # a bond between two atoms *written* aromatic: its final order is decided by the aromaticity perception that
+            # follows (1.5, or 1 / 2 where the system is kekulised), not by the descriptor alone
+            arom = (nodes[a].get('aromatic') and nodes[b].get('aromatic')) or all(arom_in)
             if not arom:
                 dig = lambda s: SymStr.lift(s).to_int() if not isinstance(s, str) else int(s)
                 cl.append(('bond_order_annotated', bor(order == dig(x[-1]), (False if legacy else order == dig(y[-1])))))
